@@ -94,6 +94,12 @@ def main():
         k = suites.match_known(mf, known)
         if k is None:
             unmatched.append(mf)
+        else:
+            h = ctx.known_hits.setdefault(k["id"], {"id": k["id"], "what": k["what"], "count": 0})
+            h["count"] += 1
+    for k in known:
+        if k["id"] not in ctx.known_hits:
+            lines.append("note: known finding %s (%s) was not reproduced by this run" % (k["id"], k["what"]))
     for kf in ctx.known_hits.values():
         lines.append("KNOWN-FINDING: property=%s %s %s" % (prop, kf["id"], kf["what"]))
     if unmatched:
